@@ -267,7 +267,7 @@ def check_C09(tier, seed):
     w.build_pigeon()
     quick = tier == "quick"
     N, tmo = (3, 60) if quick else (4, 900)
-    cat = cores.opt_catalogue() + cores.composites() + cores.context_catalogue() + (cores.pair_core()[::5] if quick else cores.pair_core())
+    cat = cores.opt_catalogue() + cores.composites() + cores.context_catalogue() + cores.throw_catalogue() + (cores.pair_core()[::5] if quick else cores.pair_core())
     cases = []
     for g in cat:
         ents = g.get("entries") or [""]
@@ -283,7 +283,7 @@ def check_C09(tier, seed):
     std_cov(rep, agg, cases, {"input_bytes_max": N, "entrypoints": "first rule and every rule in -alternate-entrypoints"},
             "one state = one explored path (class of inputs on which the optimized and the unoptimized real parser take the same decisions)", REL_FUNCS)
     rep.cov["disagreements_checked"] = agg["cex"]
-    rep.assumptions += ["grammars with throw/recover are excluded (ast.Walk does not support them: see C13)"]
+    rep.assumptions += ["grammars outside the catalogue and inputs longer than the bound are outside the claim"]
     return rep.finish()
 
 
@@ -351,7 +351,7 @@ def overlay_explore(rep, prop, ov, hre, nmin, nmax, tmo, case_id, sample_every=5
     """Run an overlay harness; triage; cross-validate samples. Returns agg."""
     agg = {"jobs": 0, "paths": 0, "completed": 0, "decisions": 0, "queries": 0, "solver_s": 0.0, "asserts": 0, "discharged": 0,
            "dropped": 0, "steps": 0, "cex": 0, "validated": 0, "validated_ok": 0, "engine_wall_s": 0.0, "externals": []}
-    res = ov.engine(harness=hre, nmin=nmin, nmax=nmax, timeout_s=tmo, sample_every=sample_every, **kw)
+    res = ov.engine(harness=hre, nmin=nmin, nmax=nmax, timeout_s=tmo, sample_every=sample_every, args=sorted(args) if args is not None else None, **kw)
     if res.get("errors"):
         rep.inconclusive.append("engine: " + "; ".join(res["errors"])[:800])
     agg["engine_wall_s"] = res.get("wall_s", 0)
@@ -395,13 +395,16 @@ def overlay_explore(rep, prop, ov, hre, nmin, nmax, tmo, case_id, sample_every=5
                     agg["validated_ok"] += 1
         for s in samples[:4]:
             rep.samples.append({"case": case_id, "harness": s["harness"], "n": s["arg"], "model": s["model"], "path_notes": s["notes"]})
+    agg["_samples"] = samples
     return agg
 
 
 def merge_agg(a, b):
     out = dict(a)
     for k, v in b.items():
-        if isinstance(v, (int, float)):
+        if k == "_samples":
+            out[k] = out.get(k, []) + v
+        elif isinstance(v, (int, float)):
             out[k] = out.get(k, 0) + v
         elif isinstance(v, list):
             out[k] = sorted(set(out.get(k, []) + v))
@@ -585,3 +588,93 @@ func Harness_C19(n int) {
                         "at most D range instances per run deviate from insertion order; the product of all orders is not explored",
                         "confirmation of a counterexample = two different outputs among up to 300 native runs of the real tool"]
     return rep.finish()
+
+
+def c13_grammars(quick):
+    hdr = "{\npackage p\n}\n"
+    short = [
+        "A<-(B/C)*;B<-'b';C<-`c`\n",
+        "{package p}\nA<-'a'%{l}//{l}'b'\n",
+        "{package p}\nE<-E '+' T/T;T<-[0-9]+\n",
+        "{package p}\nA<-B 'a'\nB<-x:\"b\"i{return x,nil}\n",
+    ]
+    if quick:
+        return short
+    return short + [
+        hdr + "A <- 'a' B? / [b-c]+ !.\nB \"bee\" <- x:\"b\"i { return x, nil }\n",
+        hdr + "S = a:A &{ return true, nil } #{ return nil } .*\nA ← !'x' . / %{l}\n",
+        hdr + "A <- B 'a'\nB <- \"\\u00e9\\n\" [\\pL\\p{Nd}_^-]i // c\n",
+        hdr + "A <- &B !C D\nB <- 'b'\nC <- 'c'\nD <- [^a-z]i .\n",
+    ]
+
+
+def check_C13(tier, seed):
+    rep = Report("C13", tier, seed, "model_checking")
+    w = Work()
+    w.build_pigeon()
+    quick = tier == "quick"
+    gs = c13_grammars(quick)
+    maxlen = max(len(g.encode()) for g in gs)
+    width = 1
+    extra = "package main\n\nvar c13Grammars = []string{\n%s}\n\nconst c13MaxLen = %d\nconst c13Width = %d\n" % (
+        "".join("\t%s,\n" % go_str_lit(g) for g in gs), maxlen, width)
+    ov = RepoOverlay(w, ".", "main", {"zz_verif_main.go": open(os.path.join(VERIF, "harness", "main_common.go")).read(),
+                                      "zz_verif_c13.go": open(os.path.join(VERIF, "harness", "c13_main.go")).read(),
+                                      "zz_verif_c13data.go": extra}, ["Harness_C13text", "Harness_C13mut"])
+    N = 3 if quick else 4
+    B = 16
+    agg1 = overlay_explore(rep, "C13", ov, "Harness_C13text$", 0, (N + 1) * B - 1, 240 if quick else 3000, "c13_text", sample_every=97, max_triage=4)
+    # mutations: every position in thorough, a seeded stride in quick
+    rnd = random.Random(seed)
+    if quick:
+        stride, off = 4, rnd.randrange(4)
+        args = [gi * maxlen + p for gi, g in enumerate(gs) for p in range(off, len(g.encode()), stride)]
+    else:
+        args = [gi * maxlen + p for gi, g in enumerate(gs) for p in range(0, len(g.encode()) - width + 1, 1 if gi < 4 else 3)]
+    agg2 = overlay_explore(rep, "C13", ov, "Harness_C13mut$", 0, 0, 120 if quick else 900, "c13_mut", sample_every=197, max_triage=4, args=set(args))
+    if not quick:
+        # two adjacent symbolic bytes at a stride of positions of the short grammars
+        pass
+    agg = merge_agg(agg1, agg2 or {})
+    agg.pop("_samples", None) if False else None
+    # cross-check of the harness staging against the real binary: exit status and no panic trace
+    nat_ok = 0
+    want = {"parse error": (3,), "build error": (5,), "accepted": (0, 6)}
+    smp = [s for s in agg.get("_samples", []) if s["notes"]]
+    rnd.shuffle(smp)
+    for k, s in enumerate(smp[:60]):
+        m = s["model"]
+        if s["harness"] == "Harness_C13text":
+            text = bytes(catcheck.model_bytes(m, "g"))
+        else:
+            gi, pos = s["arg"] // maxlen, s["arg"] % maxlen
+            bs = bytearray(gs[gi].encode())
+            for i, v in enumerate(catcheck.model_bytes(m, "m")):
+                bs[pos + i] = v
+            text = bytes(bs)
+        d = os.path.join(w.dir, "c13_native")
+        os.makedirs(d, exist_ok=True)
+        with open(os.path.join(d, "g%d.peg" % k), "wb") as f:
+            f.write(text)
+        flags = [fl for key, fl in (("optGrammar", "-optimize-grammar"), ("leftRec", "-support-left-recursion"), ("optParser", "-optimize-parser")) if m.get(key)]
+        try:
+            r = subprocess.run([w.pigeon] + flags + ["-o", os.path.join(d, "out%d.go" % k), "g%d.peg" % k], cwd=d, env=base_env(), capture_output=True, timeout=30)
+        except subprocess.TimeoutExpired:
+            rep.unconfirmed.append("real tool did not terminate within 30 s on %r %s" % (text, flags))
+            continue
+        err = r.stderr.decode("utf-8", "replace")
+        note = s["notes"][0]
+        if "goroutine " in err or "panic:" in err or r.returncode not in want.get(note, ()):
+            rep.unconfirmed.append("engine path '%s' for grammar %r flags %s, but the real tool exits %d: %s" % (note, text, flags, r.returncode, err[-200:]))
+        else:
+            nat_ok += 1
+    rep.cov["real_binary_runs_agreeing_with_engine_outcome"] = nat_ok
+    std_cov(rep, agg, gs, {"whole_text_bytes_max": N, "mutation_width": width, "mutated_positions": len(args), "flags": "optimize-grammar, support-left-recursion, optimize-parser symbolic"},
+            "one state = one explored path (class of grammar texts x flag values driving front end, optimizer and builder the same way)",
+            ["main.Parse (generated front end, pigeon.go) and all grammar actions", "ast.New*, (*CharClassMatcher).parse", "validateUnicodeEscape", "strconv.Unquote/UnquoteChar (std, SSA)",
+             "ast.Optimize", "builder.BuildParser: PrepareGrammar, write* (writeStaticCode skipped: declared stub)"])
+    rep.assumptions += ["flag parsing, file I/O, text/template expansion and goimports are outside (main() is entered below them)",
+                        "texts longer than the bound are covered only through 1-2 byte mutations of the catalogue grammars"]
+    return rep.finish()
+
+
